@@ -151,6 +151,9 @@ class Verifier(Engine):
         fx.handler_exc = []
         fx.used = set()
         if c.opts.get("value_mode"):
+            from .ex import FRONT
+            st.assume(z3.And(FRONT >= 0, FRONT <= h.alloc))   # FRONT: entry frontier of the outermost value-mode call
+            entry.pc = list(st.pc)
             self.vm_checkpoint(st)
         outs = self.run_block(fsrc.node.body, st, fx)
         for u in c.uses:
@@ -190,7 +193,7 @@ class Verifier(Engine):
                         val = T(c.result, self.coerce(val, c.result, EC(st, spec=True)))
                 else:
                     val = T(c.result, self.coerce(val, c.result, EC(st, spec=True)))
-        post_st = St(dict(entry.env), st.heap, st.pc, ghost={"result": val})
+        post_st = St(dict(entry.env), st.heap, st.pc, ghost=dict(st.ghost, result=val))
         # ghost / locals are not visible in ensures; parameters keep their ENTRY values (Python rebinding of a
         # parameter inside the body does not change what the caller passed)
         for text, f in self.spec_conj(c.ensures, post_st, entry, fx):
@@ -261,7 +264,22 @@ class Verifier(Engine):
         if m is None:
             raise OutOfSubset("statement %s at line %d" % (type(s).__name__, s.lineno))
         self.stats["paths"] += 1
-        return m(s, st, fx)
+        if getattr(self, "_effort", "quick") != "quick":
+            return m(s, st, fx)
+        saved = st.copy()
+        nobl = len(self.obls)
+        try:
+            return m(s, st, fx)
+        except OutOfSubset:
+            # retry this statement once with full effort in the type-directed `must` queries
+            del self.obls[nobl:]
+            fx.nobl = sum(1 for o in self.obls if getattr(o, "fx", None) is fx)
+            self._effort = "full"
+            self.stats["full_effort_retries"] = self.stats.get("full_effort_retries", 0) + 1
+            try:
+                return m(s, saved, fx)
+            finally:
+                self._effort = "quick"
 
     # ------------------------------------------------------------------ simple statements
     def st_Pass(self, s, st, fx):
@@ -299,6 +317,12 @@ class Verifier(Engine):
         return outs + [(NORMAL, None, st)]
 
     def st_Assign(self, s, st, fx):
+        if isinstance(s.value, ast.IfExp):
+            # `x = a if c else b`  ==  `if c: x = a  else: x = b`   (path split instead of an ite term)
+            mk = lambda v: ast.copy_location(ast.Assign(targets=s.targets, value=v, lineno=s.lineno), s)
+            node = ast.copy_location(ast.If(test=s.value.test, body=[mk(s.value.body)], orelse=[mk(s.value.orelse)]), s)
+            ast.fix_missing_locations(node)
+            return self.st_If(node, st, fx)
         ec = self.new_ec(st, fx)
         val = self.ev(s.value, ec)
         for t in s.targets:
@@ -355,7 +379,7 @@ class Verifier(Engine):
                 ii = smt.num_int(vi)
                 ec.may_raise(z3.Or(ii >= n, ii < -n), "IndexError", line, "list assignment index out of range")
                 jj = z3.If(ii < 0, ii + n, ii)
-                self.list_set_all(ec, r, n, z3.Store(h.a["lel"][r], jj, toV(val)))
+                self.list_set_all(ec, r, n, z3.Store(h.sel("lel", r), jj, toV(val)))
                 return
             raise OutOfSubset("subscript assignment on a value not known to be dict or list (line %d)" % line)
         if isinstance(t, (ast.Tuple, ast.List)):
@@ -502,7 +526,21 @@ class Verifier(Engine):
     def havoc_loop(self, node, st, fx, extra_names=()):
         """havoc everything the loop body may change; returns list of (name, kind) with stable kinds to re-check"""
         names = assigned_names(node.body) | set(extra_names)
+        vm = bool(fx.contract.opts.get("value_mode"))
+        builder_names = []
+        if vm:
+            pn, whole_ = heap_effects(node.body, self)
+            if whole_:
+                raise OutOfSubset("value mode: loop body mutates an object through a computed receiver (line %d)" % node.lineno)
+            opens = st.ghost.get("_open", ())
+            for n in sorted(pn):
+                if n in st.env and st.env[n].k == "V" and any(simp(V.rv(st.env[n].t)).eq(b) for b in opens):
+                    builder_names.append((n, simp(st.env[n].t)))
+                    names = names | {n}
+                elif n not in names:
+                    raise OutOfSubset("value mode: loop body mutates %s, which is not an open builder (line %d)" % (n, node.lineno))
         stable = []
+        lvs = []
         for n in sorted(names):
             if n in st.env and st.env[n].k in KIND_SORT:
                 k = st.env[n].k
@@ -514,10 +552,29 @@ class Verifier(Engine):
             else:
                 st.env[n] = T("V", fresh("lv_" + n, V))
                 self.assumptions.add("A-UNBOUND: a local first assigned inside a loop is treated as bound after the loop")
+            havocked_v = st.env[n]
+            if havocked_v.k == "V":
+                lvs.append(havocked_v.t)
         pnames, whole = heap_effects(node.body, self)
         h = st.heap
         refs = None
-        if whole:
+        if vm:
+            na = fresh("alloc", IntS)
+            st.assume(na >= h.alloc)
+            h.alloc = na
+            # a builder that is mutated in the body: its (re-allocated) current value is an unknown fresh object of the
+            # same class which is again an open builder; the back edge checks that it is still one
+            opens = tuple(b for b in st.ghost.get("_open", ()) if not any(simp(V.rv(old)).eq(b) for _, old in builder_names))
+            for n, old in builder_names:
+                t = st.env[n].t
+                st.assume(is_ref(t))
+                st.assume(typ(V.rv(t)) == typ(V.rv(old)))
+                from .ex import FRONT
+                st.assume(V.rv(t) >= FRONT)
+                opens = opens + (simp(V.rv(t)),)
+            st.ghost["_open"] = opens
+            st.ghost["_loop_builders"] = tuple(n for n, _ in builder_names)
+        elif whole:
             a = {n: fresh(n, HEAP_SORTS[n]) for n in HEAP_NAMES}
             na = fresh("alloc", IntS)
             st.assume(na >= h.alloc)
@@ -545,8 +602,9 @@ class Verifier(Engine):
                 for f in heap_wf_axioms(h):
                     st.assume(f)
             else:
+                from .tr import closed_at
                 for r in refs:
-                    for f in dict_wf_at(h, r):
+                    for f in dict_wf_at(h, r) + closed_at(h, r):
                         st.assume(f)
                     st.assume(h.llen(r) >= 0)
         else:
@@ -554,7 +612,9 @@ class Verifier(Engine):
             na = fresh("alloc", IntS)
             st.assume(na >= h.alloc)
             h.alloc = na
-        if fx.contract.opts.get("value_mode"):
+        for t in lvs:   # values held by locals are allocated objects
+            st.assume(z3.Implies(is_ref(t), z3.And(V.rv(t) >= 0, V.rv(t) < st.heap.alloc)))
+        if False and fx.contract.opts.get("value_mode"):
             # inputs are never written in value mode (frame obligations): they survive any havoc
             from .ex import FRONT
             from .tr import forall as _forall
@@ -623,11 +683,11 @@ class Verifier(Engine):
 
     def back_edge(self, sp, s2, fx, line, stable, m0, extra_bound=None):
         if fx.contract.opts.get("value_mode"):
-            lo = s2.ghost.get("_loop_open", ())
             now = s2.ghost.get("_open", ())
-            for b in lo:
-                if not any(b.eq(x) for x in now):
-                    raise OutOfSubset("a builder that was open at the loop head escapes inside the loop body (line %d)" % line)
+            for n in s2.ghost.get("_loop_builders", ()):
+                t = s2.env.get(n)
+                if t is None or t.k != "V" or not any(simp(V.rv(t.t)).eq(b) for b in now):
+                    raise OutOfSubset("value mode: builder %s is not an open builder at the end of the loop body (line %d)" % (n, line))
         for n, k in stable:
             x = normT(s2.env[n])
             if x.k != k:
@@ -683,7 +743,7 @@ class Verifier(Engine):
             _, which, d = x.t
             r = V.rv(d)
             ec.may_raise(z3.Not(z3.And(is_ref(d), sub(typ(r), cid("dict")))), "AttributeError", line, ".%s() on a non-dict" % which)
-            arr_k, dv = h.a["dkey"][r], h.a["dval"][r]
+            arr_k, dv = h.sel("dkey", r), h.sel("dval", r)
             if which == "keys":
                 return h.dlen(r), (lambda i: tV(arr_k[i]))
             if which == "values":
@@ -699,13 +759,13 @@ class Verifier(Engine):
         v = toV(x)
         r = V.rv(v)
         if self.must(st, is_listlike(v)):
-            arr = h.a["lel"][r]
+            arr = h.sel("lel", r)
             return h.llen(r), (lambda i: tV(arr[i]))
         if self.must(st, is_dictlike(v)):
-            arr = h.a["dkey"][r]
+            arr = h.sel("dkey", r)
             return h.dlen(r), (lambda i: tV(arr[i]))
         if self.must(st, z3.Or(is_listlike(v), is_dictlike(v))):
-            arrl, arrd = h.a["lel"][r], h.a["dkey"][r]
+            arrl, arrd = h.sel("lel", r), h.sel("dkey", r)
             isl = is_listlike(v)
             return z3.If(isl, h.llen(r), h.dlen(r)), (lambda i: tV(z3.If(isl, arrl[i], arrd[i])))
         raise OutOfSubset("for-loop over a value not known to be list/dict/set/str (line %d)" % line)
